@@ -164,6 +164,19 @@ func TestC19(t *testing.T) {
 		}
 		out.emit("marshal", "umt", []string{hx(n)}, hexBytes(txt))
 		out.emit("marshal", "umj", []string{hx(n)}, hexBytes(js))
+		// String() is the same decimal text
+		var str string
+		switch w {
+		case 8:
+			str = view.Uint8View(n).String()
+		case 16:
+			str = view.Uint16View(n).String()
+		case 32:
+			str = view.Uint32View(n).String()
+		case 64:
+			str = view.Uint64View(n).String()
+		}
+		out.emit("string", "umt", []string{hx(n)}, hexBytes([]byte(str)))
 		// and back
 		out.emit("round", "uut", []string{hx(uint64(w)), hexBytes(txt)}, uut(w, txt))
 		out.emit("round", "uuj", []string{hx(uint64(w)), hexBytes(js)}, uuj(w, js))
@@ -296,6 +309,11 @@ func TestC19(t *testing.T) {
 		js, _ := v.MarshalJSON()
 		out.emit("marshal256", "umt", []string{x.Text(16)}, hexBytes(txt))
 		out.emit("marshal256", "umj", []string{x.Text(16)}, hexBytes(js))
+		out.emit("string256", "umt", []string{x.Text(16)}, hexBytes([]byte(v.String())))
+		// MustUint256 of the marshalled text gives the value back
+		out.emit("must256", "u256ut", []string{hexBytes(txt)}, guard(func() string {
+			return "OK " + u256hex(view.MustUint256(string(txt)))
+		}))
 	}
 	// hex: every length 0..80 +- prefix, odd lengths, non-hex characters; all destinations
 	hexAlphabet := "0123456789abcdefABCDEF"
@@ -334,10 +352,8 @@ func TestC19(t *testing.T) {
 			o, _ := conv.BytesMarshalText(b)
 			return hexBytes(o)
 		}))
-		if len(b) == 32 {
-			var r tree.Root
-			copy(r[:], b)
-			_ = r
+		if len(b) == 4 || len(b) == 8 || len(b) == 16 || len(b) == 20 {
+			out.emit("bstr", "bstr", []string{hexBytes(b)}, hexBytes([]byte(view.SmallByteVecView(b).String())))
 		}
 	}
 	// DynamicBytesUnmarshalText (fresh and reused destinations) and BytesString
@@ -395,6 +411,7 @@ func TestC19(t *testing.T) {
 		rng.Read(r[:])
 		txt, _ := r.MarshalText()
 		out.emit("hexm", "hexm", []string{hexBytes(r[:])}, hexBytes(txt))
+		out.emit("bstr", "bstr", []string{hexBytes(r[:])}, hexBytes([]byte(r.String())))
 		var r2 tree.Root
 		out.emit("hexu", "hexu", []string{"20", hexBytes(txt)}, guard(func() string {
 			if err := r2.UnmarshalText(txt); err != nil {
